@@ -154,6 +154,36 @@ PROPS = {
                         "denormals); float TEXT format is outside the Lean model and not generated. bool/bytea/uuid text round trips "
                         "are checked by the campaign's decoder, not proved.",
              technique="Lean 4 proof (codec round trips, row/column correspondence) + differential correspondence with client-side decoding oracle"),
+    "C04": P("Pw.Props.C04",
+             ["Pw.Props.C04.C04_no_crash", "Pw.Props.C04.runProg_no_panic", "Pw.Props.C04.encodeRow_no_panic",
+              "Pw.Props.C04.loop_safe", "Pw.Props.C04.handleExecute_safe", "Pw.Props.C04.handleCommand_safe",
+              "Pw.Props.C04.serveAfterVersion_safe"],
+             [("hostile", 4000, 300000), ("alloc", 600, 20000), ("session", 1200, 100000), ("limit", 600, 40000),
+              ("bincopy", 600, 40000), ("copy", 600, 40000), ("paramsd", 200, 6000), ("startup", 500, 40000)],
+             ["Panics", "Reader", "Params", "Accessors"],
+             design_ref="§7 C04",
+             level_text="PARTIAL. Lean theorem C04_no_crash: for EVERY configuration, EVERY handler program and EVERY client byte "
+                        "string (plaintext or inside TLS), in every phase and with the transport failing at any read or write "
+                        "position, the model of Server.serve never ends in an unrecovered panic: the simple-query path cannot make "
+                        "the row encoder panic (runProg_no_panic: format codes stay in {0,1}), a panic raised under Execute by hostile "
+                        "result-format codes is contained (handleExecute_safe), and no other step of the loop can reach the crashed "
+                        "state (structural induction over handler programs, statements and loop iterations). The model is total: "
+                        "every function is structurally recursive, so serving a finite input is a finite computation. Tie: the "
+                        "'hostile' differential campaign (valid, lying and bit-damaged messages in every phase incl. text and binary "
+                        "COPY through the library's own readers and ParseParameters; read faults / EOF after the n-th byte, write "
+                        "faults at the k-th Write) run against the real server through Server.Serve in child processes: a panic kills "
+                        "the child and is reported with its trace, a connection that neither blocks in a read nor closes is a hang, a "
+                        "connection not released after the client hung up, a bystander connection not served meanwhile, and (campaign "
+                        "'alloc') more than 4 MiB + 16 x limit bytes allocated while serving a connection that announces up to 4 GiB "
+                        "are violations; model/implementation agreement on output and callback trace shows that nothing fabricated "
+                        "reached a callback. The regenerated facts list every index/slice expression of the library "
+                        "(Conformance/Panics.lean).",
+             level_note="Partial: process survival, goroutine scheduling, heap growth and 'other connections keep being accepted' are "
+                        "runtime behaviour; the theorem is about the model, the runtime part is observed by the campaigns only "
+                        "(crash/hang/allocation/bystander oracles). Allocation: the proved bound is C18_alloc_bound for reader.Msg; "
+                        "other allocations (Bind parameter slices, CopyReader chunk, pgx) are measured, not proved. Trusted: Lean "
+                        "kernel; the model of pgx's encoder panic (format code outside {0,1}).",
+             technique="Lean 4 proof (no-crash invariant by structural induction) + differential correspondence under fault injection in isolated child processes"),
     "C05": P("Pw.Props.C05",
              ["Pw.Props.C05.runProg_facts", "Pw.Props.C05.C05_rows_delivered", "Pw.Props.C05.C05_written",
               "Pw.Props.C05.C05_after_completion_silent", "Pw.Props.C05.C05_one_complete", "Pw.Props.C05.C05_handler_no_ready",
